@@ -28,6 +28,8 @@ type aresp struct {
 	BodySeed uint32  `json:"body_seed,omitempty"`
 	BodyPat  []byte  `json:"-"`
 	Interim  []interim `json:"interim,omitempty"` // 1xx responses sent before the final one
+	Announce []string  `json:"announce,omitempty"` // round 8: the names the Trailer header announces (nil: all sent names or none, per cell)
+	AnnRel   string    `json:"announce_relation,omitempty"` // equal | subset | superset | disjoint | none
 }
 
 type interim struct {
@@ -253,6 +255,49 @@ func coqLit(b []byte) string {
 	return "(concat [" + strings.Join(parts, "; ") + "])"
 }
 
+// announced: the trailer names the response announces
+func (a *aresp) announced(all bool) []string {
+	if a.AnnRel != "" {
+		return a.Announce
+	}
+	if !all || len(a.Trailers) == 0 {
+		return nil
+	}
+	var names []string
+	for _, t := range a.Trailers {
+		names = append(names, t.Name)
+	}
+	return names
+}
+
+// setAnnounce fixes the relation between the announced and the sent trailer field names
+func (a *aresp) setAnnounce(rng *hk.Rand, rel string) {
+	a.AnnRel, a.Announce = rel, nil
+	var sent []string
+	seen := map[string]bool{}
+	for _, t := range a.Trailers {
+		k := strings.ToLower(t.Name)
+		if !seen[k] {
+			seen[k] = true
+			sent = append(sent, t.Name)
+		}
+	}
+	unsent := []string{"X-Unsent-A", "x-unsent-b"}
+	switch rel {
+	case "equal":
+		a.Announce = sent
+	case "subset": // some of the sent names only: the others arrive unannounced
+		a.Announce = sent[:len(sent)/2]
+		if len(a.Announce) == 0 && len(sent) > 1 {
+			a.Announce = sent[:1]
+		}
+	case "superset":
+		a.Announce = append(append([]string{}, sent...), unsent[:1+rng.Intn(2)]...)
+	case "disjoint":
+		a.Announce = unsent[:1+rng.Intn(2)]
+	}
+}
+
 func bodyAllowed(code int) bool { return !(code >= 100 && code <= 199 || code == 204 || code == 304) }
 
 // ---------- HTTP/1.1 rendering ----------
@@ -329,11 +374,7 @@ func renderH1(rng *hk.Rand, a *aresp, o *h1opts) (wireBytes []byte, pieces []pie
 		framing = append(framing, field{hk.Pick(rng, []string{"Content-Length", "content-length", "CONTENT-LENGTH"}), fmt.Sprint(len(a.Body))})
 	case wire.FrChunked:
 		framing = append(framing, field{hk.Pick(rng, []string{"Transfer-Encoding", "transfer-encoding"}), hk.Pick(rng, []string{"chunked", "chunked", "Chunked", "CHUNKED"})})
-		if o.Declare && len(a.Trailers) > 0 {
-			var names []string
-			for _, t := range a.Trailers {
-				names = append(names, t.Name)
-			}
+		if names := a.announced(o.Declare); len(names) > 0 {
 			framing = append(framing, field{"Trailer", strings.Join(names, hk.Pick(rng, []string{", ", ",", " , "}))})
 		}
 	}
